@@ -569,7 +569,16 @@ class Ctx:
         ops = uniq
         model = model_eval(ops, driver or self.driver)
         dis = []
-        for op, m in zip(ops, model):
+        t_suite = time.time()
+        budget = float(os.environ.get("PYODA_SUITE_BUDGET_S", "21600" if self.thorough else "1500"))
+        for n_done, (op, m) in enumerate(zip(ops, model)):
+            if n_done % 64 == 0 and time.time() - t_suite > budget:
+                # on the unchanged tree every suite finishes in a small fraction of this; a suite that does not is real
+                # code that has stopped making progress in bounded time (walks that never reach their end, ...)
+                self.add_failure({"key": "suite-exceeds-time-budget",
+                                  "what": f"suite {suite}: {n_done} of {len(ops)} operations took more than {budget:.0f} s; stopped at {op[:160]}"},
+                                 op=op, source=f"budget@{suite}")
+                break
             toks = op.split(" ")
             r = guard(impl, toks)
             st["ops"] += 1
